@@ -339,3 +339,17 @@ EXTRA7 = {
 }
 for _k, _v in EXTRA7.items():
     EXTRA[_k] = EXTRA.get(_k, "") + _v
+EXTRA8 = {
+    "C01": " Round i: the trivial-answer predicates test identity (own position), and a literal resolved with an answer inherits its ambiguous bit on every path (FACTOR).",
+    "C04": " Round i: FACTOR (shared with C01).",
+    "C06": " Round i: the FromEnv(T: Trait) arm pushes the trait's and all associated types' clauses unconditionally.",
+    "C07": " Round i: the recursive clause loop has no exit but the trivially-true one (shared EVERY-CLAUSE).",
+    "C14": " Round i: universe comparisons are read by meaning (<, >, >=, <=, can_see) with orientation.",
+    "C15": " Round i: the symmetry table is refined by variable kind and mutability.",
+    "C16": " Round i: every kind table keeps the kind (and the integer/float sub-kind) of what it instantiates.",
+    "C17": " Round i: trivial-answer predicates test identity; F19 (MayInvalidate ignores repeated guidance variables) is a known finding, C17.REPEATED-VARIABLE.",
+    "C22": " Round i: attribute tests of a *Repr/*Flags struct are independent of each other in the item writers.",
+    "C28": " Round i: KIND-PRESERVING over every match on GenericArgData / VariableKind.",
+}
+for _k, _v in EXTRA8.items():
+    EXTRA[_k] = EXTRA.get(_k, "") + _v
